@@ -36,6 +36,7 @@ fn real_main() -> i32 {
         "c12" => c12::main(&env),
         "c14" => c14::main(&env),
         "c14-child" => c14::child_main(&args[1..]),
+        "miri-c12" => c12::miri_main(&args[1..]),
         "miri-c14" => c14::miri_main(&args[1..]),
         "c15" => c15::main(&env),
         "c20" => c20::main(&env),
